@@ -140,33 +140,6 @@ theorem spec_tr_more (T : Tr) (hinj : ∀ a b, T.frag a = T.frag b → a = b) (s
       refine ⟨T.node (.spread nm ds), (nodes_tr T d).mem_iff.mpr (List.mem_map_of_mem hm), ds.map T.dir, ?_⟩
       simp [Tr.node, e1]
 
-/-- rules whose verdict is proved invariant under `Tr` -/
-def ProvedTr : List Rule := Proved ++ ProvedTyped
-
-/-- **perm_selections / perm_arguments / alpha_fragments** for 19 rules (general form; instances as in C06_inv.lean).
-    Not covered: `PossibleFragmentSpreads` (needs the renaming of the fragment-type table), the four variable rules. -/
-theorem tr_invariance_all_partial (T : Tr) (hinj : ∀ a b, T.frag a = T.frag b → a = b) (s : SchemaD) (fx : Fixes) (d : Doc)
-    (r : Rule) (hr : r ∈ ProvedTr) : Silent s fx r (T.doc d) ↔ Silent s fx r d := by
-  simp only [ProvedTr, List.mem_append] at hr
-  rcases hr with hr | hr
-  · exact tr_invariance_partial T hinj s fx d r hr
-  · have hp : r ∈ ProvedPermDefs := by simp only [ProvedPermDefs, List.mem_append]; exact Or.inr hr
-    rw [rule_iff_permdefs s fx _ r hp, rule_iff_permdefs s fx d r hp]
-    exact spec_tr_more T hinj s fx d r hr
-
-theorem perm_selections_all_partial (π : List Sel → List Sel) (hπ : ∀ l, (π l).Perm l) (s : SchemaD) (fx : Fixes) (d : Doc)
-    (r : Rule) (hr : r ∈ ProvedTr) :
-    Silent s fx r ((Tr.mk π id id hπ (fun _ => List.Perm.refl _)).doc d) ↔ Silent s fx r d :=
-  tr_invariance_all_partial _ (fun _ _ e => e) s fx d r hr
-
-theorem perm_arguments_all_partial (π : List Arg → List Arg) (hπ : ∀ l, (π l).Perm l) (s : SchemaD) (fx : Fixes) (d : Doc)
-    (r : Rule) (hr : r ∈ ProvedTr) :
-    Silent s fx r ((Tr.mk id π id (fun _ => List.Perm.refl _) hπ).doc d) ↔ Silent s fx r d :=
-  tr_invariance_all_partial _ (fun _ _ e => e) s fx d r hr
-
-theorem alpha_fragments_all_partial (ρ : String → String) (hρ : ∀ a b, ρ a = ρ b → a = b) (s : SchemaD) (fx : Fixes) (d : Doc)
-    (r : Rule) (hr : r ∈ ProvedTr) :
-    Silent s fx r ((Tr.mk id id ρ (fun _ => List.Perm.refl _) (fun _ => List.Perm.refl _)).doc d) ↔ Silent s fx r d :=
-  tr_invariance_all_partial _ hρ s fx d r hr
+/-! `ProvedTr` and the uniform `Tr` invariance theorems: `Props/C06_inv3.lean` (they include val2's values rule) -/
 
 end PyGql.Props.C06
